@@ -3,6 +3,7 @@ package main
 import (
 	"encoding/json"
 	"fmt"
+	"reflect"
 	"runtime"
 	"runtime/debug"
 	"strings"
@@ -253,9 +254,21 @@ func callBcast(fn string, ga, gb tensor.Tensor) (oa, ob tensor.Tensor, err error
 	if fn == "apply-uni" {
 		opt = ops.UnidirectionalBroadcasting
 	}
-	_, err = ops.ApplyBinaryOperation(ga, gb, func(x, y tensor.Tensor) (tensor.Tensor, error) {
-		oa, ob = x, y
-		return x, nil
-	}, opt)
+	// called through reflection: the callback type (ops.BinaryOp) is an exported signature that a change to the library
+	// may extend (further option parameters); the harness must keep building against such a tree
+	fv := reflect.ValueOf(ops.ApplyBinaryOperation)
+	ft := fv.Type()
+	if ft.Kind() != reflect.Func || ft.NumIn() != 4 || ft.In(2).Kind() != reflect.Func || ft.In(2).NumIn() < 2 || ft.In(2).NumOut() != 2 {
+		return nil, nil, fmt.Errorf("ApplyBinaryOperation has another shape than (A, B, op, option)")
+	}
+	cb := reflect.MakeFunc(ft.In(2), func(args []reflect.Value) []reflect.Value {
+		oa, _ = args[0].Interface().(tensor.Tensor)
+		ob, _ = args[1].Interface().(tensor.Tensor)
+		return []reflect.Value{args[0].Convert(ft.In(2).Out(0)), reflect.Zero(ft.In(2).Out(1))}
+	})
+	outs := fv.Call([]reflect.Value{reflect.ValueOf(ga), reflect.ValueOf(gb), cb, reflect.ValueOf(opt).Convert(ft.In(3))})
+	if e, ok := outs[len(outs)-1].Interface().(error); ok && e != nil {
+		err = e
+	}
 	return oa, ob, err
 }
